@@ -283,11 +283,11 @@ fn variants(tier: vpc::Tier) -> Vec<Variant> {
     };
     // D1: two path() callers + lookup {Ok, empty, Err}
     for o in [OUT_OK, OUT_EMPTY, OUT_ERR] {
-        add("D1", &[Caller, Caller, Dropper], &[o], false, false, 1, if t { 3 } else { 1 });
+        add("D1", &[Caller, Caller, Dropper], &[o], false, false, 1, if t { 3 } else { 2 });
     }
     // D2: path() callers + idle exit (max_idle_period = 0)
     for o in [OUT_OK, OUT_EMPTY, OUT_ERR] {
-        add("D2", &[Caller, Caller, Dropper], &[o], true, false, 0, if t { 2 } else { 1 });
+        add("D2", &[Caller, Caller, Dropper], &[o], true, false, 0, if t { 3 } else { 2 });
     }
     // D3: path() + stop_managing_paths + second path() re-creating the pair
     for o in [OUT_OK, OUT_EMPTY, OUT_ERR] {
@@ -298,17 +298,17 @@ fn variants(tier: vpc::Tier) -> Vec<Variant> {
     // D5: manager dropped while a handle-holding task waits (also in quick: it is the only driver in
     // which the notification on the worker's exit path is what releases a waiter)
     for o in [OUT_OK, OUT_ERR] {
-        add("D5", &[HandleWaiter, Dropper], &[o], false, false, 0, if t { 3 } else { 1 });
+        add("D5", &[HandleWaiter, Dropper], &[o], false, false, 0, if t { 4 } else { 3 });
     }
     if t {
-        add("D5c", &[HandleWaiter, Caller, Dropper], &[OUT_OK], false, false, 0, 2);
+        add("D5c", &[HandleWaiter, Caller, Dropper], &[OUT_OK], false, false, 0, 3);
         // D4: cached_path pollers + path() caller
         for o in [OUT_OK, OUT_EMPTY, OUT_ERR] {
-            add("D4", &[Poller(3), Caller, Dropper], &[o], false, false, 0, 2);
+            add("D4", &[Poller(3), Caller, Dropper], &[o], false, false, 0, 3);
         }
         add("D4p", &[Poller(2), Poller(2), Dropper], &[OUT_OK], false, false, 0, 3);
         // D6: refetch (immediate retry after a failed lookup, backoff 0) racing a late caller
-        add("D6", &[Caller, Caller, Dropper], &[OUT_ERR, OUT_OK], false, true, 0, 2);
+        add("D6", &[Caller, Caller, Dropper], &[OUT_ERR, OUT_OK], false, true, 0, 3);
         add("D6", &[Caller, Caller, Dropper], &[OUT_EMPTY, OUT_OK], false, true, 0, 2);
         add("D6", &[Caller, Caller, Dropper], &[OUT_ERR, OUT_EMPTY, OUT_OK], false, true, 0, 2);
     }
@@ -395,6 +395,10 @@ struct HState {
     poll_demand: u32,
     /// still owns a clone of the manager
     holds_mgr: bool,
+    /// gates this task was released from, in order (how it got its answer)
+    route: Vec<&'static str>,
+    /// it polled its notification future and had to block (the wake-up came later)
+    blocked: bool,
 }
 
 #[derive(Default)]
@@ -521,13 +525,14 @@ async fn explore_one(v: &Variant, prefix: &[(u8, u8)], want_trace: bool) -> Exec
                 })
             }
         };
-        hs.push(HState { kind: *kind, fut: Some(fut), waker: Arc::new(FlagWaker(AtomicBool::new(true))), result: None, handle: None, wait_decision: None, final_pre: None, polls_made: 0, poll_demand: 0, holds_mgr: true });
+        hs.push(HState { kind: *kind, fut: Some(fut), waker: Arc::new(FlagWaker(AtomicBool::new(true))), result: None, handle: None, wait_decision: None, final_pre: None, polls_made: 0, poll_demand: 0, holds_mgr: true, route: vec![], blocked: false });
     }
     drop(mgr); // the explorer itself never keeps the manager alive
 
     let mut ex = Exec::default();
     let mut ws: Vec<WState> = vec![];
     let mut removals: usize = 0;
+    let mut orphans_at_drop: Option<usize> = None;
     let mut adv_left = v.advances;
     let mut last: Option<Tid> = None;
     let viol = |ex: &mut Exec, class: String, what: String| {
@@ -670,6 +675,11 @@ async fn explore_one(v: &Variant, prefix: &[(u8, u8)], want_trace: bool) -> Exec
                             removals += 1;
                         }
                     }
+                    (Kind::Dropper, _) => {
+                        // workers that are still alive although their entry was removed from the index
+                        let indexed = usize::from(peek(&reg).is_some());
+                        orphans_at_drop = Some(metrics.num_alive_tasks().saturating_sub(indexed));
+                    }
                     (Kind::Caller | Kind::HandleWaiter, "a.before_wait") => {
                         if hs[iu].handle.is_none() {
                             hs[iu].handle = *my_handle[iu].borrow();
@@ -747,6 +757,10 @@ async fn explore_one(v: &Variant, prefix: &[(u8, u8)], want_trace: bool) -> Exec
                     }
                     Kind::HandleWaiter => hs[iu].handle = *my_handle[iu].borrow(),
                     _ => {}
+                }
+                hs[iu].route.push(from_label);
+                if from_label == "a.registered" && hs[iu].result.is_none() && !ctl.0.lock().unwrap().parked.contains_key(&Tid::H(i)) {
+                    hs[iu].blocked = true;
                 }
                 if let Kind::Poller(_) = hs[iu].kind {
                     // exactly one cached_path call is made per step of a poller
@@ -853,7 +867,18 @@ async fn explore_one(v: &Variant, prefix: &[(u8, u8)], want_trace: bool) -> Exec
                 parts.push(format!("H{i}=PENDING@{at}"));
             }
             Some(r) => {
-                parts.push(format!("H{i}={}", show_out(r, &fp_name)));
+                let how = if !matches!(h.kind, Kind::Caller | Kind::HandleWaiter) {
+                    ""
+                } else if h.route.contains(&"a.registered") {
+                    if h.blocked { "/waited:woken-while-blocked" } else { "/waited:notified-before-first-poll" }
+                } else if h.route.contains(&"a.before_wait") {
+                    "/no-wait:lookup-already-finished"
+                } else if h.route.contains(&"p.before_ensure") || h.route.contains(&"h.have_handle") {
+                    "/slot-filled-at-arrival"
+                } else {
+                    "/index-hit"
+                };
+                parts.push(format!("H{i}={}{how}", show_out(r, &fp_name)));
                 let delivered_ok = |fp: &DpPathFingerprint| {
                     let g = ctl.0.lock().unwrap();
                     fps.iter().position(|f| f == fp).is_some_and(|k| k < g.fetches.len() && matches!(g.fetches[k].state, FState::Done) && v.outcomes[k.min(v.outcomes.len() - 1)] == OUT_OK)
@@ -931,6 +956,9 @@ async fn explore_one(v: &Variant, prefix: &[(u8, u8)], want_trace: bool) -> Exec
     }
     let herrs: Vec<String> = reg.borrow().iter().map(|h| h.current_error().map(|e| err_class(&e)).unwrap_or_else(|| "-".into())).collect();
     parts.push(format!("workers={started} lookups={fetch_calls} max_inflight={max_inflight} removals={removals} handle_errors=[{}]", herrs.join(",")));
+    if let Some(o) = orphans_at_drop.filter(|o| *o > 0) {
+        parts.push(format!("unindexed_workers_alive_at_drop={o}"));
+    }
     if !gone {
         parts.push("manager=ALIVE".into());
     }
@@ -1229,7 +1257,9 @@ pub fn run(args: &vpc::Args) -> ! {
             *by_preemptions.entry(l).or_default() += st.schedules;
         }
         for (s, n) in &sigs {
-            run.outcome_n(&format!("{}: {s}", v.name), *n);
+            // evidence listing: what every task got and how; worker/handle details stay in the counts
+            let coarse = s.split(" max_inflight=").next().unwrap_or(s);
+            run.outcome_n(&format!("{}: {coarse}", v.name), *n);
             per_driver_classes.entry(v.driver.to_string()).or_default().insert(format!("{}|{s}", v.outcomes.iter().map(|o| out_name(*o)).collect::<Vec<_>>().join("+")));
         }
         per_variant.insert(
